@@ -67,7 +67,12 @@ def check(ctx):
     ctx.undecided("float rounding of exp() near the boundaries")
 
     fi = repo.func(MH)
-    res = evaluate(repo, fi)
+    # helpers of the same module are inlined, so splitting mh_step into a wrapper and a
+    # worker function is transparent
+    from ..core.terms import make_inliner
+    res = evaluate(repo, fi, inline=make_inliner(
+        repo, allow=lambda f: f.module.name == fi.module.name and f.cls is None),
+        inline_depth=3)
     ret = res.ret()
     ok = ret is not None and ret[0] == "tuple" and len(ret[1]) == 2
     ctx.ob("C05.R4", fi, "mh_step returns a pair (info, model_state) on a single path",
